@@ -54,7 +54,7 @@ theorem trel_retire {a : MT σ} {b : MT τ} (h : TRel a b) : TRel a.retire b.ret
   obtain ⟨R, hstep, hst, hb, ho, hr, hbu, hre, hh⟩ := h
   exact ⟨R, hstep, hst, hb, ho, hr, hbu, rfl, hh⟩
 
-theorem scan_rel (e : Event) (he : SE e) (s : Nat) (en : Option Nat) :
+theorem sim_scan (e : Event) (he : SE e) (s : Nat) (en : Option Nat) :
     ∀ {A : List (MT σ)} {B : List (MT τ)}, LRel A B → ∀ i,
       LRel (scan e s en i A).1 (scan e s en i B).1 ∧ (scan e s en i A).2 = (scan e s en i B).2 := by
   intro A B h
@@ -102,7 +102,7 @@ theorem updRange_rel (e : Event) (he : SE e) (lo hi : Nat) :
     · exact (test_rel hab e he true).1
     · exact hab
 
-theorem retireAt_rel : ∀ {A : List (MT σ)} {B : List (MT τ)}, LRel A B → ∀ i, LRel (retireAt i A) (retireAt i B) := by
+theorem sim_retireAt : ∀ {A : List (MT σ)} {B : List (MT τ)}, LRel A B → ∀ i, LRel (retireAt i A) (retireAt i B) := by
   intro A B h
   induction h with
   | nil => intro i; cases i <;> exact .nil
@@ -209,7 +209,7 @@ theorem fired_rel {a : MT σ} {b : MT τ} (h : TRel a b) (idx : Nat) {A : List (
   unfold fired
   rw [← ho]
   split
-  · exact retireAt_rel hAB idx
+  · exact sim_retireAt hAB idx
   · exact hAB
 
 /-- **Simulation.**  The filter over related item lists and related template lists: both runs fail, or
@@ -230,7 +230,7 @@ theorem run_rel : ∀ (f s : Nat) (en : Option Nat) {X : List (Item σ)} {Y : Li
       simp only [run]
       by_cases hS : isStart e = true
       · simp only [hS, ↓reduceIte]
-        obtain ⟨h1, h2⟩ := scan_rel e (Or.inl hS) s en hAB 0
+        obtain ⟨h1, h2⟩ := sim_scan e (Or.inl hS) s en hAB 0
         revert h1 h2
         generalize scan e s en 0 A = sa
         generalize scan e s en 0 B = sb
